@@ -188,7 +188,9 @@ def run(tier="quick"):
                                         "verif/units/u1_int/spec.rs", "", None, "", rlimit=v['rlimit']))
         # Kani twins: real helpers + real encoding, full-domain operands, fixed registers
         twin_names = TWIN_QUICK + (TWIN_SLOW if tier == "thorough" else [])
-        tres, tinfo = run_twins(twin_names, timeout=1500 if tier == "thorough" else 300)
+        if os.environ.get("ABRA_VERIF_PROP") not in (None, "C15", "C05"):
+            twin_names = []
+        tres, tinfo = run_twins(twin_names, timeout=1500 if tier == "thorough" else 300) if twin_names else ({}, dict(arm_sha={}, rewrites={}))
         for n in twin_names:
             r = tres[n]
             bounded = None
